@@ -179,6 +179,9 @@ func NewPrivateKeyFromInt(key *big.Int) (*PrivateKey, error) {
 		return nil, errors.New("sm2: private key is nil")
 	}
 	keyBytes := make([]byte, p256().N.Size())
+	if (key.BitLen()+7)/8 > len(keyBytes) {
+		return nil, errors.New("sm2: invalid private key")
+	}
 	return NewPrivateKey(key.FillBytes(keyBytes))
 }
 
